@@ -52,6 +52,8 @@ def stores_for(ctx, mix, scale=1):
             r = gen.inject(rng, L, rng.choice(gen.VIOLATIONS))
             files, base, _w = C15.split_program(rng, list(r[0]) if r else L)
             out.append((files, base, "cutinjected"))
+    for _ in range(mix.get("loophead", 0) * k):
+        out.append((pipe.single(gen.loophead_prog(rng)), "a.s", "loophead-conforming"))
     for _ in range(mix.get("ecallloop", 0) * k):
         out.append((pipe.single(gen.ecall_loop_prog(rng)), "a.s", "ecallloop"))
     for _ in range(mix.get("loopfn", 0) * k):
